@@ -33,12 +33,12 @@ Proof.
 Qed.
 Print Assumptions C16_tail.
 
-(* ---- positive offsets, merged reads included: for 1..49 sources (journals through the range iterator or in-memory
+(* ---- positive offsets, merged reads included: for 1..50 sources (journals through the range iterator or in-memory
    sources, any order, ties, unsorted) with any WHERE filter, POSITION head OFFSET k returns the forward read of the
    same cursor without its first k events ("skip the first k matching events"), for every k and every page limit.
    (crsr.Offset settles on the current event with a Get before it steps.) *)
 Theorem C16_head : forall (srcs : list (nat * leaf)) (f : option flt) (k limit fuel : nat),
-  srcs <> [] -> (length srcs < merge_limit)%nat -> Forall (fun s => fresh_leaf (snd s)) srcs ->
+  srcs <> [] -> (length srcs <= merge_limit)%nat -> Forall (fun s => fresh_leaf (snd s)) srcs ->
   exists c, new_cursor srcs f PHead = Some c /\
     let L := content leaf_rest false (cu_tree c) in
     ((length L < fuel)%nat ->
@@ -75,7 +75,7 @@ Print Assumptions C16_inverse.
 (* ---- the statements over whole stores (any number of partitions, with or without RANGE), what is left of their
    refutations, and what the repairs of the cursor bought *)
 (* read = what the checker's model_query (lib/CursorK.v) returns for the request, with a page limit that never cuts the
-   answer (fuel_of exceeds the number of stored events); None: refused (50 or more partitions) or no answer *)
+   answer (fuel_of exceeds the number of stored events); None: refused (more than 50 partitions) or no answer *)
 Definition read (srcs : list srcspec) (f : option flt) (p : posspec) (offs : Z) : option (list item) := store_read srcs f p offs.
 (* the same read with the cursor's variant flags explicit (model/Offset.v: settle = Offset starts with a settling Get,
    drop = fiterator.SetBackward drops its buffer); the code is (true, true) *)
